@@ -268,9 +268,9 @@ fn c14_packed_set(c: &mut Case) -> Result<(), String> {
 pub const RULE_C14: &str = "case = operation history of 1-14 steps from {new, with_capacity, blank/Vmer::new, from_bytes, from_dna_string (mixed case), from_acgt_bytes, push, extend (0, few, exactly-to-the-block-boundary, 32, 33 or random many bases; called both on and off a 32-base boundary), push_bytes, set_mut, clear, rc, reverse, clone} with lengths biased to 0,1,31,32,33,63,64,65,96,128; after EVERY step: len/get/iter/to_bytes/to_ascii_vec/Display/Debug vs the model vector, and ==, Hash, cmp, ndiffs against two fresh strings built from the model by other routes; finally rc/reverse, lexicographic cmp against prefixes/extensions/one-base variants, ndiffs counts; second group: PackedDnaStringSet add/get/slice; distinct = hash(history, final value)";
 
 pub fn run_c14(ctx: &Ctx) {
-    let n = ctx.n(150_000, 20_000_000);
+    let n = ctx.n(1_000_000, 50_000_000);
     ctx.run_group("histories", n, false, |c| c14_case(c));
-    ctx.run_group("packed_set", ctx.n(20_000, 1_000_000), false, |c| c14_packed_set(c));
+    ctx.run_group("packed_set", ctx.n(100_000, 5_000_000), false, |c| c14_packed_set(c));
     if !ctx.is_miri() {
         ctx.require("extend_on_block_boundary", 1000);
         ctx.require("extend_inside_block", 1000);
@@ -503,8 +503,8 @@ fn c15_hamming(c: &mut Case) -> Result<(), String> {
 pub const RULE_C15: &str = "views group: backing string of 0-400 bases (lengths around 256 included), view = random nesting (depth <= 6) of prefix/suffix/slice/slice-of-slice/rc, model computed step by step on plain vectors; checked: len/get/bytes/ascii/to_dna_string/Display/Debug (full text < 256 bases, field summary >= 256)/iter/to_owned/get_kmer (K=4,31,48)/iter_kmers, == against an independently nested view, against its own rc, against fresh views over equal strings; hamming group: two equal-length views (lengths 0,1,31-33,63-65,1023-1025,2047-2049,3071,3072 or random < 2600) at unrelated offsets, any fwd/rc mix, mismatches planted at position 0, last, 31, 32, len%32 and random; distinct = hash of (backing string, view fields) / (length, offsets, distance)";
 
 pub fn run_c15(ctx: &Ctx) {
-    ctx.run_group("views", ctx.n(80_000, 5_000_000), false, |c| c15_case(c));
-    ctx.run_group("hamming", ctx.n(40_000, 3_000_000), false, |c| c15_hamming(c));
+    ctx.run_group("views", ctx.n(400_000, 20_000_000), false, |c| c15_case(c));
+    ctx.run_group("hamming", ctx.n(200_000, 10_000_000), false, |c| c15_hamming(c));
     if !ctx.is_miri() {
         ctx.require("rc_views", 1000);
         ctx.require("hamming_pairs_len_ge_1024", 1000);
